@@ -199,6 +199,7 @@ def gen_cases(r, w, snaps, target, thorough):
     return cases, needed, {alias: (target, 1)}
 
 
+@H.guarded
 def w_repo(arg):
     seed, idx, tier = arg
     from .. import common
@@ -257,6 +258,10 @@ def compare(case, m, contents, paths):
             p = paths[str(f['path']['sec'])]
             data = b''
             for part in f['parts']:
+                if not isinstance(part[0], dict) or 'sec' not in part[0]:
+                    # only possible when a verification guard has disappeared from the source (the model mirrors it): the model
+                    # itself predicts adversarial content; the direct oracle decides
+                    return [], 'ok-with-adversarial-content'
                 c = bytes.fromhex(contents[part[0]['sec']])
                 data += c[part[1]:part[2]]
             pred[p] = data.hex()
@@ -272,6 +277,7 @@ def compare(case, m, contents, paths):
 
 
 # ------------------------------------------------------------------ tagged: which key / which digest does the real check use
+@H.guarded
 def w_tagged(arg):
     seed, idx, tier = arg
     from .. import common
@@ -337,6 +343,10 @@ def run(out, drv, info):
         b = pool.map_async(w_tagged, [(out.seed, i, out.tier) for i in range(n_tag)], chunksize=2)
         repos, tags = a.get(), b.get()
     for rp in repos:
+        if rp.get('crashed'):
+            out.case({'crashed': rp['idx']}, False)
+            out.disagreement(f'case #{rp["idx"]} could not be driven / interpreted: {rp["what"]}', {'kind': 'crash', 'idx': rp['idx'], 'trace': rp['trace']})
+            continue
         base = {'kind': 'repo', 'seed': out.seed, 'idx': rp['idx'], 'tier': out.tier}
         for sig, what, extra in rp['violations']:
             out.violation(sig, what, dict(base, **extra, cfg=rp['cfg']))
@@ -357,6 +367,10 @@ def run(out, drv, info):
             if case['outcome']['class'] == 'error' and case['outcome']['error'].startswith(('other:', 'replicat_error', 'malformed')):
                 out.count('unclassified-error:' + case['outcome']['error'])
     for tg in tags:
+        if tg.get('crashed'):
+            out.case({'crashed': tg['idx']}, False)
+            out.disagreement(f'case #{tg["idx"]} could not be driven / interpreted: {tg["what"]}', {'kind': 'crash', 'idx': tg['idx'], 'trace': tg['trace']})
+            continue
         for ch in tg['checks']:
             out.case({'tagged': [ch['i'], ch['j']], 'idx': tg['idx'], 'enc': ch['encrypted']}, ch['i'] != ch['j'])
             out.count('tagged:' + ('same' if ch['i'] == ch['j'] else 'swapped') + ':' + ch['real'])
